@@ -110,7 +110,7 @@ theorem step_AllE {P Q : Key → Entry → Prop} (w : World) (op : Op)
       lookupEntry w.cfg now ign e = (some e', r) → Q key e')
     (hclone : ∀ c k e id, op = .reload c → P k e → w.st.nextId ≤ id → id < w.st.nextId + w.st.entries.length →
       Q k (cloneForReload e id))
-    (hrd : ∀ now key e, op = .refreshDone now key → (key, e) ∈ w.st.entries → P key e → e.deadline > now →
+    (hrd : ∀ now key e, op = .refreshDone now key → (key, e) ∈ w.st.entries → P key e →
       e.refreshing = true → Q key { e with refreshing := false })
     (h : AllE P w.st.entries) : AllE Q (step w op).1.st.entries := by
   cases op with
@@ -150,11 +150,9 @@ theorem step_AllE {P Q : Key → Entry → Prop} (w : World) (op : Op)
       have hm := find_mem hf
       simp only []
       split
-      · split
-        · rename_i hd hr
-          exact (h.mono mono).store (hrd now key e rfl hm (h _ hm) hd hr)
-        · exact h.mono mono
-      · exact (h.mono mono).erase _
+      · rename_i hr
+        exact (h.mono mono).store (hrd now key e rfl hm (h _ hm) hr)
+      · exact h.mono mono
   | remove key => exact (h.mono mono).erase _
   | removeFamily base =>
     simp only [step, State.removeFamily]
@@ -259,15 +257,13 @@ structure Ok (T : Int) (k : Key) (e : Entry) : Prop where
   pat : e.packed = true → e.packedAt ≤ T
   pttl : e.packed = true → e.packedTTL = ttlFromDeadline e.deadline e.packedAt
   st : e.src.t ≤ T
-  rf : e.refreshing = true → e.deadline ≤ T
-  la : e.lastAccess ≤ T ∨ e.lastAccess = 0
+  la : e.lastAccess ≤ T
 
 theorem Ok.mono {T T' : Int} {k : Key} {e : Entry} (hT : T ≤ T') (h : Ok T k e) : Ok T' k e :=
   { h with
     pat := fun hp => Int.le_trans (h.pat hp) hT
     st := Int.le_trans h.st hT
-    rf := fun hr => Int.le_trans (h.rf hr) hT
-    la := h.la.elim (fun h => Or.inl (Int.le_trans h hT)) Or.inr }
+    la := Int.le_trans h.la hT }
 
 theorem Ok.of_insEntry (cfg : Cfg) (id : Nat) (now : Int) (key : Key) (host : List Char) (qtype : Nat)
     (ttl : Int) (ans nAns ns : Nat) :
@@ -293,12 +289,11 @@ theorem Ok.of_repack {T now : Int} {k : Key} {e : Entry} (hT : T ≤ now) (h : O
   · intro _; exact Int.le_refl _
   · intro _; exact curTtl_eq e now h.dn hd
   · exact h'.st
-  · exact h'.rf
   · exact h'.la
 
 theorem Ok.of_touch {T now : Int} {k : Key} {e : Entry} (hT : T ≤ now) (h : Ok T k e) : Ok now k (touch e now) := by
   have h' := h.mono hT
-  exact { h' with la := Or.inl (Int.le_refl _) }
+  exact { h' with la := Int.le_refl _ }
 
 theorem staleResp_some {e : Entry} {now stale : Int} {ttl : Nat} (h : staleResp e now stale = some ttl) :
     e.deadlineNano ≤ now ∧ (stale > 0 → now ≤ e.deadlineNano + stale * SEC) ∧ e.packed = true ∧ ttl = e.packedTTL := by
@@ -347,8 +342,7 @@ theorem step_Ok (T : Int) (w : World) (op : Op) (hpre : ∀ t, op.time = some t 
       · rw [he]; exact ht.of_repack (Int.le_refl _) hns hdn
     · obtain ⟨_, _, ttl, hs, heq⟩ := hc
       rw [heq] at hl; cases hl
-      have hs' := staleResp_some hs
-      exact { ht with rf := fun _ => by have := ht.dn; simp only at this ⊢; omega }
+      exact { ht with }
     · obtain ⟨_, _, heq⟩ := hc
       rw [heq] at hl; cases hl
   · intro c k e id hop hP _ _
@@ -362,14 +356,13 @@ theorem step_Ok (T : Int) (w : World) (op : Op) (hpre : ∀ t, op.time = some t 
     · intro hp; simp only [hp, if_true]; exact hP.pat hp
     · intro hp; simp only [hp, if_true]; exact hP.pttl hp
     · exact hP.st
-    · intro hf; cases hf
     · exact hP.la
-  · intro now key e hop _ hP _ _
+  · intro now key e hop _ hP _
     subst hop
     have hT' : T ≤ now := hpre now rfl
     simp only [Op.time, Option.getD_some]
     have h' := hP.mono hT'
-    exact { h' with rf := fun hf => by cases hf }
+    exact { h' with }
 
 /-! ## histories -/
 
@@ -594,7 +587,7 @@ theorem step_SrcOk (cfgs : List Cfg) (past : List Op) (w : World) (op : Op) (hc 
       exact (hm _ _ hP).congr h1 h2 h3
     · intro c k e id _ hP _ _
       exact (hm _ _ hP).congr rfl rfl rfl
-    · intro now key e _ _ hP _ _
+    · intro now key e _ _ hP _
       exact (hm _ _ hP).congr rfl rfl rfl
 
 theorem run_SrcOk (ops : List Op) (cfgs : List Cfg) (past : List Op) (w : World) (hc : w.cfg ∈ cfgs)
@@ -903,7 +896,7 @@ theorem step_OkS (w : World) (op : Op) (h : AllE OkS w.st.entries) : AllE OkS (s
     · exact hP.og
     · exact hP.key
     · exact hP.pk
-  · intro now key e _ _ hP _ _
+  · intro now key e _ _ hP _
     exact ⟨hP.dn, hP.dl, hP.og, hP.key, hP.pk⟩
 
 theorem run_OkS (ops : List Op) (w : World) (h : AllE OkS w.st.entries) : AllE OkS (run w ops).1.st.entries := by
@@ -1216,10 +1209,8 @@ theorem step_KN (w : World) (op : Op) (h : KN w.st.entries) : KN (step w op).1.s
     | some e =>
       simp only []
       split
-      · split
-        · exact h.of_store _ _
-        · exact h
-      · exact h.of_filter _
+      · exact h.of_store _ _
+      · exact h
   | remove key => exact h.of_filter _
   | removeFamily base =>
     simp only [step, State.removeFamily]
@@ -1362,6 +1353,45 @@ theorem timeEvict_spec (cfg : Cfg) (now : Int) (es : List (Key × Entry)) (p : K
   by_cases h : useTimeEviction cfg = true
   · rw [if_pos h]; simp [List.mem_filter, h]
   · rw [if_neg h]; simp [h]
+
+
+
+/-! ## the heap selection of `evictLRUIfFull` -/
+
+theorem swapL_length (l : List HItem) (i j : Nat) : (swapL l i j).length = l.length := by
+  unfold swapL
+  cases l[i]? <;> cases l[j]? <;> simp
+
+theorem swapL_getElem? (l : List HItem) (i j x : Nat) (hi : i < l.length) (hj : j < l.length) :
+    (swapL l i j)[x]? = if x = j then l[i]? else if x = i then l[j]? else l[x]? := by
+  unfold swapL
+  rw [List.getElem?_eq_getElem hi, List.getElem?_eq_getElem hj]
+  simp only [List.getElem?_set]
+  by_cases h1 : x = j
+  · subst h1; simp [hj]
+  · by_cases h2 : x = i
+    · subst h2; simp [Ne.symm h1, hi, h1]
+    · simp [Ne.symm h1, Ne.symm h2, h1, h2]
+
+theorem la_swapL (l : List HItem) (i j x : Nat) (hi : i < l.length) (hj : j < l.length) :
+    la (swapL l i j) x = if x = j then la l i else if x = i then la l j else la l x := by
+  unfold la
+  rw [swapL_getElem? l i j x hi hj]
+  split
+  · rfl
+  · split <;> rfl
+
+theorem swapL_perm (l : List HItem) (i j : Nat) : (swapL l i j).Perm l := by
+  unfold swapL
+  by_cases hi : i < l.length
+  · by_cases hj : j < l.length
+    · rw [List.getElem?_eq_getElem hi, List.getElem?_eq_getElem hj]
+      exact List.set_set_perm hi hj
+    · have : l[j]? = none := List.getElem?_eq_none (by omega)
+      rw [this]
+      cases l[i]? <;> exact List.Perm.refl _
+  · have : l[i]? = none := List.getElem?_eq_none (by omega)
+    rw [this]
 
 
 end DaeVerif.C08
